@@ -516,7 +516,8 @@ func (c *evalCtx) cond(n *pg_query.Node) (int, error) {
 				op = s.Sval
 			}
 		}
-		if ae.Kind != pg_query.A_Expr_Kind_AEXPR_OP || (op != "=" && op != "<>" && op != "!=") {
+		ordering := op == "<" || op == "<=" || op == ">" || op == ">="
+		if ae.Kind != pg_query.A_Expr_Kind_AEXPR_OP || (op != "=" && op != "<>" && op != "!=" && !ordering) {
 			return 0, unsupported("operator %v %q", ae.Kind, op)
 		}
 		l, err := c.eval(ae.Lexpr)
@@ -545,6 +546,32 @@ func (c *evalCtx) cond(n *pg_query.Node) (int, error) {
 		}
 		if l.null || r.null {
 			return bNull, nil
+		}
+		if ordering {
+			// ordering is defined by this reference for integers only
+			if !((isIntOID(l.oid) || l.oid == 0 && l.isInt) && (isIntOID(r.oid) || r.oid == 0 && r.isInt)) {
+				return 0, unsupported("ordering operator %q on non-integer operands", op)
+			}
+			a, err1 := strconv.ParseInt(string(l.b), 10, 64)
+			b, err2 := strconv.ParseInt(string(r.b), 10, 64)
+			if err1 != nil || err2 != nil {
+				return 0, unsupported("ordering operator %q on %q, %q", op, l.b, r.b)
+			}
+			var t bool
+			switch op {
+			case "<":
+				t = a < b
+			case "<=":
+				t = a <= b
+			case ">":
+				t = a > b
+			case ">=":
+				t = a >= b
+			}
+			if t {
+				return bTrue, nil
+			}
+			return bFalse, nil
 		}
 		eq := bytes.Equal(l.b, r.b)
 		if (op == "=") == eq {
